@@ -9,13 +9,33 @@
 #include "wimpl.h"
 #include <cstdio>
 #include <algorithm>
+#include <cstring>
 
 KFd *find_listener(const std::string &tr, const std::string &ip);
+
+// structural hash: numbers as doubles, object members in any order
+static uint64_t jv_hash(const JV &v) {
+	switch (v.t) {
+	case JV::Null: return 0x9e3779b97f4a7c15ULL;
+	case JV::Bool: return v.b ? 0x51ed27f1ULL : 0x2545f491ULL;
+	case JV::Num: { double d = v.d == 0 ? 0.0 : v.d; uint64_t b; memcpy(&b, &d, 8); return mix64(b, 0x4e554d); }
+	case JV::Str: { Hasher h; h.str(v.s); return mix64(h.h, 0x535452); }
+	case JV::Arr: { uint64_t h = 0x415252; for (auto &x : v.a) h = mix64(h, jv_hash(x)); return h; }
+	case JV::Obj: { uint64_t h = 0; for (auto &kv : v.o) { Hasher k; k.str(kv.first); h += mix64(k.h, jv_hash(kv.second)); } return mix64(h, 0x4f424a); }
+	}
+	return 0;
+}
 
 namespace {
 struct ShadowHost : ModelHost {
 	World *w = nullptr;
-	void expect(int, const Exp &) override {}
+	World::Cand *cur = nullptr;
+	void expect(int c, const Exp &e) override {
+		if (!cur || e.kind != Exp::NOTIFY) return;
+		if (cur->entitled.size() > 600) { cur->entitled_overflow = true; return; }
+		World::Entitled x; x.c = c; x.fetchid = e.fetchid; x.event = e.event; x.path = e.path; x.check_value = e.check_value; x.vhash = e.check_value ? jv_hash(e.value) : 0;
+		cur->entitled.push_back(x);
+	}
 	uint64_t vnow() override { return w ? w->now : 0; }
 	void probe(const std::string &) override {}
 	void violation(const std::string &, const std::string &, const std::string &) override {}
@@ -39,7 +59,7 @@ bool get_set_equal2(const JV &a, const JV &b) {
 	}
 	return true;
 }
-const size_t MAX_ALTERNATIVES = 64;
+const size_t MAX_ALTERNATIVES = 24;
 }
 
 void World::shadow_give_up(const std::string &why) {
@@ -47,11 +67,13 @@ void World::shadow_give_up(const std::string &why) {
 	shadow_undecidable = true; shadow_why = why;
 	probe("shadow_undecidable"); probe("shadow_undecidable:" + why.substr(0, 48));
 	dbg("shadow: given up: %s", why.c_str());
-	cands.clear(); snap_cands.clear(); since_snap.clear(); shadow_gets.clear(); snap_gets.clear();
+	cands.clear(); snap_cands.clear(); since_snap.clear(); shadow_gets.clear(); snap_gets.clear(); shadow_unexplained.clear();
 }
 
 void World::shadow_mark() {
 	if (!shadow_enabled || shadow_undecidable) return;
+	if (snap_version == model_version && since_snap.empty()) return;   // nothing happened since the last snapshot
+	snap_version = model_version;
 	since_snap.clear();
 	if (shadow_active) { snap_cands = cands; snap_gets = shadow_gets; return; }
 	if (mode != "exact") return;
@@ -60,6 +82,7 @@ void World::shadow_mark() {
 }
 
 void World::shadow_log(const Input &in) {
+	model_version++;
 	if (!shadow_enabled || shadow_undecidable) return;
 	since_snap.push_back(in);
 	if (shadow_active) shadow_apply(cands, in, false);
@@ -78,7 +101,7 @@ void World::shadow_apply(std::vector<Cand> &cs, const Input &in, bool fork) {
 	g_shadow_host.w = this;
 	for (auto &c : cs) c.m.host = &g_shadow_host;
 	Client *cl = in.c >= 0 && in.c < (int)clients.size() ? &clients[in.c] : nullptr;
-	auto gone = [&]() { for (auto &c : cs) if (c.alive) c.m.on_peer_gone(in.c, false); };
+	auto gone = [&]() { for (auto &c : cs) if (c.alive) { g_shadow_host.cur = &c; c.m.on_peer_gone(in.c, false); } g_shadow_host.cur = nullptr; };
 	std::vector<std::string> members; bool drop_after = false;
 	switch (in.t) {
 	case Input::CONN: for (auto &c : cs) if (c.alive) c.m.on_connect(in.c, in.text, in.fd != 0); return;
@@ -121,17 +144,24 @@ void World::shadow_apply(std::vector<Cand> &cs, const Input &in, bool fork) {
 				if (it != shadow_gets.end()) it->second.ambiguous = true; else shadow_gets[key] = g;
 			}
 		}
-		if (!fork) { for (auto &c : cs) if (c.alive) c.m.on_message(in.c, text); }
+		if (!fork) { for (auto &c : cs) if (c.alive) { g_shadow_host.cur = &c; c.m.on_message(in.c, text); } g_shadow_host.cur = nullptr; }
 		else {
-			std::vector<Cand> next; std::vector<int> parent; std::set<std::string> seen;
+			std::vector<Cand> next; std::vector<int> parent; std::map<std::string, size_t> seen;
 			for (size_t i = 0; i < cs.size(); i++) {
 				if (!cs[i].alive) continue;
 				for (int variant = 0; variant < 2; variant++) {
 					Cand n = cs[i]; n.parent = (int)i;
-					if (variant == 1) n.m.on_message(in.c, text);
+					if (variant == 1) { g_shadow_host.cur = &n; n.m.on_message(in.c, text); g_shadow_host.cur = nullptr; }
 					std::string key = n.m.image_key();
 					for (auto &kv : shadow_gets) if (i < kv.second.rc.size()) key += "|" + std::to_string(kv.second.rc[i]) + kv.second.sets[i].dump();
-					if (!seen.insert(key).second) continue;
+					auto sit = seen.find(key);
+					if (sit != seen.end()) {
+						// same state reached another way: keep one, with everything either of them would have sent
+						Cand &keep = next[sit->second];
+						if (keep.entitled.size() + n.entitled.size() < 1200) keep.entitled.insert(keep.entitled.end(), n.entitled.begin(), n.entitled.end()); else keep.entitled_overflow = true;
+						continue;
+					}
+					seen[key] = next.size();
 					next.push_back(n); parent.push_back((int)i);
 				}
 			}
@@ -159,7 +189,8 @@ void World::shadow_fork() {
 	shadow_active = true;
 	size_t n = 0; for (auto &c : cands) if (c.alive) n++;
 	probe("shadow_forked"); probe("shadow_alternatives:" + std::to_string(n > 8 ? 9 : n));
-	dbg("shadow: %zu alternatives after the failed allocation (%zu inputs in the interrupted event)", n, ins.size());
+	dbg("shadow: %zu alternatives after the failed allocation (%zu inputs in the interrupted event, %zu alternatives at its start)", n, ins.size(), snap_cands.size());
+	if (debug) for (size_t i = 0; i < cands.size(); i++) dbg("shadow:   alternative %zu alive=%d key=%.300s", i, cands[i].alive, cands[i].m.image_key().c_str());
 }
 
 void World::shadow_check_get(Client &cl, const Frame &f) {
@@ -183,7 +214,7 @@ void World::shadow_check_get(Client &cl, const Frame &f) {
 		if (ok) alive_after++;
 		else { if (alts.size() < 1500) alts += "\n  alternative " + std::to_string(i) + ": " + (i < g.rc.size() && (g.rc[i] == 0 || g.rc[i] == 2) ? g.sets[i].dump() : std::string("<refusal>")); }
 	}
-	shadow_checks++; probe("shadow_get_checked");
+	shadow_checks++; probe("shadow_get_checked"); model_version++;
 	if (alive_before == 0) return;
 	if (alive_after == 0) {
 		violation(plan.hdr.gets("shadowprop", "C04"), "state-not-explained-after-failed-allocation",
@@ -212,4 +243,64 @@ bool World::shadow_send_probe() {
 	deliver_bytes(cc, raw_frame("{\"id\":\"shadow-probe\",\"method\":\"get\",\"params\":{}}"));
 	probe("shadow_probe_sent");
 	return true;
+}
+
+// ------------------------------------------------------------------ notifications after a failed allocation
+// No completeness is demanded (a notification may be lost with the failed allocation), but every notification a peer does receive must be
+// one that at least one alternative of the reference model would send to it: for a fetch it holds, a path its rule selects and its user may see,
+// with the value the element has.
+bool World::shadow_explain_notify(int c, const Frame &f) {
+	const JV *m = f.j.get("method"), *p = f.j.get("params");
+	if (!m || !p) return true;
+	std::string path = p->gets("path", "\x01"), ev = p->gets("event");
+	const JV *v = p->get("value");
+	bool any = false, overflow = false;
+	for (auto &cd : cands) {
+		if (!cd.alive) continue;
+		if (cd.entitled_overflow) overflow = true;
+		for (size_t i = 0; i < cd.entitled.size(); i++) {
+			Entitled &e = cd.entitled[i];
+			if (e.c != c || e.event != ev || e.path != path || !id_equal(e.fetchid, *m)) continue;
+			if (e.check_value && (!v || jv_hash(*v) != e.vhash)) continue;
+			cd.entitled.erase(cd.entitled.begin() + (long)i); model_version++;
+			any = true; break;
+		}
+	}
+	if (!any && ev == "remove") {
+		// an add that is aborted half way tells every fetch registered on the element so far that it is gone, also one whose own "add" could not be
+		// built: a remove for a path the fetch selects is harmless and accepted
+		for (auto &cd : cands) {
+			if (!cd.alive) continue;
+			auto pi = cd.m.peers.find(c);
+			if (pi == cd.m.peers.end() || !pi->second.alive) continue;
+			for (auto &fe : pi->second.fetches) if (id_equal(fe.id, *m) && fe.rule.matches(path)) { any = true; probe("shadow_remove_for_unreported_path"); }
+		}
+	}
+	return any || overflow;
+}
+
+void World::shadow_check_notify(Client &cl, const Frame &f) {
+	if (!shadow_active || shadow_undecidable) return;
+	if (f.t != Frame::JSON || f.j.t != JV::Obj || !f.j.has("method") || f.j.has("id")) return;
+	size_t alive = 0; for (auto &cd : cands) if (cd.alive) alive++;
+	if (!alive) return;
+	for (;;) {
+		if (shadow_explain_notify(cl.idx, f)) { probe("shadow_notify_explained"); return; }
+		if (!feed_one_pending() && !feed_next_batch_error()) break;
+	}
+	if (debug) for (size_t i = 0; i < cands.size(); i++) { if (!cands[i].alive) continue; std::string d; auto pi = cands[i].m.peers.find(cl.idx); if (pi != cands[i].m.peers.end()) for (auto &fe : pi->second.fetches) d += fe.id.dump() + (fe.rule.all ? "(all) " : "(rule) "); dbg("shadow: alternative %zu: peer c%d alive=%d fetches: %s; %zu entitlements, %zu elements", i, cl.idx, pi != cands[i].m.peers.end() && pi->second.alive, d.c_str(), cands[i].entitled.size(), cands[i].m.elems.size()); }
+	// the end of a connection is observed after its consequences were written: judged when the daemon returns to its event loop
+	PendingNotify pn; pn.c = cl.idx; pn.f = f; shadow_unexplained.push_back(pn);
+}
+
+void World::shadow_settle_unexplained(bool final) {
+	if (shadow_unexplained.empty()) return;
+	if (!shadow_active || shadow_undecidable) { shadow_unexplained.clear(); return; }
+	std::vector<PendingNotify> left;
+	for (auto &pn : shadow_unexplained) if (!shadow_explain_notify(pn.c, pn.f)) left.push_back(pn);
+	shadow_unexplained.swap(left);
+	if (!final || shadow_unexplained.empty()) return;
+	PendingNotify pn = shadow_unexplained.front(); shadow_unexplained.clear();
+	violation(plan.hdr.gets("shadowprop", "C04"), "notification-not-explained-after-failed-allocation",
+		"after a failed allocation connection c" + std::to_string(pn.c) + " received " + frame_text(pn.f) + "; in no alternative of the reference model (requests interrupted by the failure carried out or not) does this peer hold a fetch that entitles it to this notification with this value");
 }
